@@ -215,7 +215,16 @@ class Gen:
             nf = self.n["fd"]
             for f in range(1, nf + 1):
                 L.append("S fd_reg %d 1 0 0" % f)
-            for _ in range(r.randint(3, 9)):
+            if r.random() < 0.4:
+                # a slot is vacated in the middle (the last entry moves there), refilled at the end, and
+                # then the entry that moved is changed or removed
+                a = r.randint(1, nf - 1)
+                L += ["S fd_unreg %d" % a, "S fd_reg %d 1 0 0" % a]
+                if r.random() < 0.5:
+                    L.append("S fd_set %d %d %d" % (nf, r.randint(1, 2), r.choice([0, 1])))
+                if r.random() < 0.7:
+                    L.append("S fd_unreg %d" % nf)
+            for _ in range(r.randint(3, 9) if r.random() < 0.8 else 0):
                 f = r.randint(1, nf)
                 c = r.random()
                 if c < 0.45:
